@@ -488,10 +488,74 @@ fn conc_case(run: &mut Run, tasks: usize, sends: usize, big: bool, close: bool) 
     run.count_n("conc_records", expected as u64);
 }
 
+// ---------------------------------------------------------------------------------------------
+// `pub` stream: a sender acting exactly between the statements that publish Connected
+
+/// Handshake during which, right after publication statement `point` (1 = state, 2 = write_epoch,
+/// 3 = write_seq) of the probed endpoint, a complete `send()` is executed (cfg(rustrtc_verif) probe).
+/// Returns what that send put on the wire: (epoch, seq) of its records, or None if it was rejected.
+fn publication_probe(rt: &tokio::runtime::Runtime, probe_client: bool, point: u8) -> Option<(Option<Vec<(u16, u64)>>, Vec<(u16, u64)>)> {
+    use std::sync::{Arc, Mutex};
+    rt.block_on(async move {
+        let (cc, sc) = certs();
+        let mut c = Endpoint::new(true, cc, None).await;
+        let mut s = Endpoint::new(false, sc, None).await;
+        let target = if probe_client { c.dtls.clone() } else { s.dtls.clone() };
+        let inst = target.verif_instance_id();
+        let result: Arc<Mutex<Option<bool>>> = Arc::new(Mutex::new(None));
+        let r2 = result.clone();
+        rustrtc::verif_hooks::dtls::set_publish_probe(Some(Arc::new(move |i, p| {
+            if i == inst && p == point {
+                let ok = futures::executor::block_on(target.send(Bytes::from_static(b"probe-send-at-publication"))).is_ok();
+                *r2.lock().unwrap() = Some(ok);
+            }
+        })));
+        let (c_src, s_src) = (c.sink_addr, s.sink_addr);
+        let mut from_target = vec![];
+        let _ = s.pump().await;
+        for _ in 0..12 {
+            let a = c.pump().await;
+            for d in &a { if probe_client { from_target.push(d.clone()); } s.deliver(d, s_src).await; }
+            let b = s.pump().await;
+            for d in &b { if !probe_client { from_target.push(d.clone()); } c.deliver(d, c_src).await; }
+            if a.is_empty() && b.is_empty() { break; }
+        }
+        rustrtc::verif_hooks::dtls::set_publish_probe(None);
+        if c.letter() != 'C' || s.letter() != 'C' { return None; }
+        let accepted = (*result.lock().unwrap())?;
+        let mut app = vec![]; let mut all = vec![];
+        for d in &from_target { for r in parse_records(d) {
+            if r.epoch > 0 || r.ctype == 23 { all.push((r.epoch, r.seq)); }
+            if r.ctype == 23 { app.push((r.epoch, r.seq)); }
+        } }
+        Some((if accepted { Some(app) } else { None }, all))
+    })
+}
+
+fn pub_cases(run: &mut Run, rt: &tokio::runtime::Runtime, reps: usize) {
+    for _ in 0..reps { for probe_client in [true, false] { for point in 1..=3u8 {
+        let text = format!("pub {} {point}", if probe_client { "c" } else { "s" });
+        let Some((sent, all)) = publication_probe(rt, probe_client, point) else { run.count("pub_probe_inconclusive"); continue; };
+        let out = match &sent { None => "rejected".to_string(), Some(v) if v.is_empty() => "rejected".to_string(),
+            Some(v) => v.iter().map(|(e, s)| format!("{e}.{s}")).collect::<Vec<_>>().join(" ") };
+        run.case("pub", &format!("{point},1,1"), &out, true);
+        run.count(&format!("pub_point{point}_{}", if sent.is_some() { "accepted" } else { "rejected" }));
+        // oracle: what the sender sealed must not share (epoch, seq) with any other protected record of the endpoint
+        let mut seen = BTreeSet::new();
+        for k in &all { if !seen.insert(*k) { run.fail("nonce:reused:send-during-publication", &text, &format!("epoch={} seq={}", k.0, k.1)); } }
+        if let Some(v) = &sent { for (e, _) in v { if *e == 0 { run.fail("clear:application-record-under-epoch-0", &text, ""); } } }
+    } } }
+}
+
 pub fn run(args: &Args) {
     let rt = tokio::runtime::Builder::new_current_thread().enable_all().build().unwrap();
     if let Some(case) = &args.replay {
         if let Some(h) = case.strip_prefix("dec ") { println!("impl: {}", impl_dec(&unhex(h.trim()))); return; }
+        if let Some(r) = case.strip_prefix("pub ") {
+            let f: Vec<&str> = r.split_whitespace().collect();
+            println!("impl: {:?}", publication_probe(&rt, f[0] == "c", f[1].parse().unwrap()));
+            return;
+        }
         if case.starts_with("conc ") { println!("(concurrency cases are re-run by ./check; not replayable as a single deterministic case)"); return; }
         let (role, script) = parse_script(case);
         match rt.block_on(run_session(role, &script)) {
@@ -519,6 +583,8 @@ pub fn run(args: &Args) {
         let script: Vec<(Inj, bool)> = chunk.iter().map(|b| (Inj::Captured { len: 16, mutation: Mut::Flip(*b) }, false)).collect();
         emit_session(&mut run, &rt, rng.chance(1, 2), &script);
     }
+    // (3b) a sender exactly between the publication statements
+    pub_cases(&mut run, &rt, if args.tier_thorough { 10 } else { 2 });
     // (4) record decoder
     dec_cases(&mut run, &mut rng, if args.tier_thorough { 20000 } else { 3000 });
     // (5) concurrent senders
